@@ -555,7 +555,7 @@ fn read_code<C: CodeVisitor>(
 	{
 		// We do this so that we can't read more than the bytecode
 		let mut r = Cursor::new(&bytecode);
-		while !r.get_ref()[(r.position() as usize)..].is_empty() {
+		while (r.position() as usize) < r.get_ref().len() {
 			// We may cast this to an u16, since we checked above that the length of the bytecode is less than 65536.
 			// Note that the value of u16::MAX = 65535 is not even possible as a value here.
 			let opcode_pos = r.position() as u16;
@@ -860,7 +860,7 @@ fn read_code<C: CodeVisitor>(
 	// We do this so that we can't read more than the bytecode
 	let mut r = Cursor::new(&bytecode);
 
-	while !r.get_ref()[(r.position() as usize)..].is_empty() {
+	while (r.position() as usize) < r.get_ref().len() {
 		// See the comment above for why we may do this.
 		let opcode_pos = r.position() as u16;
 
